@@ -303,9 +303,15 @@ def parseListHeader (v : Str) : List Str :=
     let p := Py.strip p
     if p.length ≥ 2 && p.head? == some '"' && p.getLast? == some '"' then (p.drop 1).dropLast else p
 
+/-- the punctuation of `[\w!#$%&'*+\-.^`|~]` (explicit list: string literals are slow to unfold
+in kernel `decide` proofs) -/
+def tokPunct : Str := ['!', '#', '$', '%', '&', '\'', '*', '+', '-', '.', '^', '`', '|', '~']
+
+def qKey : Str := ['q']
+
 /-- `[\w!#$%&'*+\-.^`|~]` under re.ASCII; also the members of `_token_chars` -/
 def isTokChar (c : Char) : Bool :=
-  c.isAlphanum || c == '_' || "!#$%&'*+-.^`|~".toList.contains c
+  c.isAlphanum || c == '_' || tokPunct.contains c
 
 /-- scan of a quoted parameter value after the opening quote: `(consumed incl. the closing quote, rest)` -/
 def quotedEnd : Str → Option (Str × Str)
@@ -367,7 +373,7 @@ def processParts : List (Str × Str) → List (Str × Str) → Except String (Li
     if pk.getLast? == some '*' then .error "UNSUPPORTED" else
     let pv :=
       if pv.head? == some '"' && pv.getLast? == some '"' then
-        pyReplace "%22".toList ['"'] (pyReplace ['\\', '"'] ['"'] (pyReplace ['\\', '\\'] ['\\'] (pv.drop 1).dropLast))
+        pyReplace ['%', '2', '2'] ['"'] (pyReplace ['\\', '"'] ['"'] (pyReplace ['\\', '\\'] ['\\'] (pv.drop 1).dropLast))
       else pv
     match continuationBase pk with
     | some base => processParts t (dictSet opts base ((dictGet opts base).getD [] ++ pv))
@@ -391,19 +397,19 @@ def quoteHeaderValue (v : Str) : Str :=
 
 /-- `dump_options_header(header, options)` -/
 def dumpOptionsHeader (header : Str) (opts : List (Str × Str)) : Str :=
-  "; ".toList.intercalate
+  [';', ' '].intercalate
     (header :: opts.map fun (k, v) =>
       if k.getLast? == some '*' then k ++ '=' :: v else k ++ '=' :: quoteHeaderValue v)
 
 /-- the body of the `for item in parse_list_header(value)` loop over already split
 `(item, options)` pairs: q extraction, validation, reconstruction of the item -/
 def acceptItem (item : Str) (opts : List (Str × Str)) : Option (Str × Q) :=
-  match dictGet opts "q".toList with
+  match dictGet opts qKey with
   | some qs =>
     match parseQ (Py.strip qs) with
     | none => none
     | some q =>
-      let o := opts.filter (·.1 != "q".toList)
+      let o := opts.filter (·.1 != qKey)
       some (if o.isEmpty then item else dumpOptionsHeader item o, q)
   | none => some (if opts.isEmpty then item else dumpOptionsHeader item opts, Q.one)
 
